@@ -47,12 +47,18 @@ def main():
     if os.path.exists(mp) and not os.environ.get("SEED_FORCE"):
         print("skip (already done or in progress)", sid)
         return
+    first_round = None
+    if os.path.exists(mp):
+        old = json.load(open(mp))
+        first_round = old.get("first_round") or ({"checks": old.get("checks"), "detected_by": old.get("detected_by")} if old.get("checks") else None)
     os.makedirs(out_dir, exist_ok=True)
     json.dump({"id": sid, "in_progress": True}, open(mp, "w"))
     for f in ("patch.diff", "demo.rs", "NOTES.md"):
         if os.path.exists(os.path.join(seed_dir, f)):
             shutil.copy(os.path.join(seed_dir, f), os.path.join(out_dir, f))
     meta = {"id": sid, "breaks_property": props[0], "ran": [], "source": "independent sub-agent (given only the property text and a scratch worktree)"}
+    if first_round:
+        meta["first_round"] = first_round
     notes = open(os.path.join(out_dir, "NOTES.md")).read() if os.path.exists(os.path.join(out_dir, "NOTES.md")) else ""
     meta["needs_to_manifest"] = notes[:1200]
     fresh_wt()
